@@ -1,5 +1,5 @@
 (* non-vacuity for C03: two exons of one transcript give a derived transcript and gene spanning min..max *)
-From GV Require Import Base.Prelude Base.PyStr Model.Bins Model.DB Model.Parser Model.Import Model.GtfSpec Proofs.C03Proofs Proofs.C03End.
+From GV Require Import Base.Prelude Base.PyStr Model.Bins Model.DB Model.Parser Model.Import Model.GtfSpec Proofs.C03Proofs Proofs.C03End Proofs.C03Ids.
 Open Scope Z_scope.
 Definition ex (s e : Z) : row := mkRow [] (U "chr1"%bs) (U "s"%bs) (U "exon"%bs) (Some s) (Some e) [46%N] [43%N] [46%N]
   [(GENE_ID, [U "G"%bs]); (TRANSCRIPT_ID, [U "T"%bs])] [] None.
@@ -28,4 +28,13 @@ Proof.
   split; [vm_compute; repeat constructor; cbn; intuition discriminate|].
   split; [intros d Hd; repeat (destruct Hd as [Hd|Hd]; [subst d; vm_compute; reflexivity|]); destruct Hd|].
   split; [vm_compute; repeat constructor; cbn; intuition discriminate|]. split; vm_compute; reflexivity.
+Qed.
+
+Example C03_ids_distinct_inhabited :
+  NoDup (map fst (tg_pairs gcfg populated)) /\
+  (forall t gn, In t (map fst (tg_pairs gcfg populated)) -> In gn (map snd (tg_pairs gcfg populated)) -> t <> gn).
+Proof.
+  split; [vm_compute; repeat constructor; cbn; intuition discriminate|].
+  intros t gn Ht Hg. vm_compute in Ht, Hg.
+  repeat (destruct Ht as [Ht|Ht]; [subst t; repeat (destruct Hg as [Hg|Hg]; [subst gn; discriminate|]); destruct Hg|]). destruct Ht.
 Qed.
